@@ -54,15 +54,12 @@ def validRowFaultB (op : ArithOp) (w : IW) (a b : Arr Int) : Bool :=
   (List.zip a b).any fun p => p.1.valid && p.2.valid && !(op.raw w p.1.raw p.2.raw).isOk
 
 def arithTags (op : ArithOp) (w : IW) (a b : Arr Int) : List String :=
-  let b' := if op == .div then safenDividend b else b
+  let b' := if op.safens then safenDividend b else b
   if a.length ≠ b.length then [] else
   if rawNoFaultB op w a b' then []
   else
     let nm := match op with | .add => "add" | .sub => "sub" | .mul => "mul" | .div => "div" | .rem => "rem"
-    if validRowFaultB op w a b' then
-      if op == .rem && (List.zip a b).any (fun p => p.1.valid && p.2.valid && p.2.raw == 0)
-      then ["rem:zero-divisor-panics"]
-      else ["arith:overflow-panics:" ++ nm]
+    if validRowFaultB op w a b' then ["arith:overflow-panics:" ++ nm]
     else ["arith:null-slot-faults:" ++ nm]
 
 /-- LIKE: the pattern is translated to a regex without escaping (`.` is a wildcard), the regex
